@@ -297,8 +297,29 @@ func groupEventsAccountForChange(pre, post map[string]any, evs []map[string]any)
 	return reflect.DeepEqual(groupSet(c), groupSet(post))
 }
 
+func hasDuplicates(xs []int) bool {
+	seen := map[int]bool{}
+	for _, x := range xs {
+		if seen[x] {
+			return true
+		}
+		seen[x] = true
+	}
+	return false
+}
+
 func oracleC06Direct(res *hx.Result, u *universe, in *directInput, wasActive bool, staleBefore []string, c *flows.Contact, a *application, which string) {
 	cls := in.Modifier.class()
+	fail := res.Fail
+	if hasDuplicates(in.Contact.Groups) {
+		// the stored contact names a group twice (fixed by 595be89: flows.NewGroupList takes it once)
+		fail = func(class string, input any, detail string) {
+			if class != "direct-noop-modifier:stale-stored-membership-kept" {
+				class = "stored-membership-duplicate-reference"
+			}
+			res.Fail(class, input, detail)
+		}
+	}
 	res.OracleChecks += 3
 	if errs := u.membershipErrors(c); len(errs) > 0 {
 		k := cls + ":membership-differs-from-query" + which
@@ -306,15 +327,15 @@ func oracleC06Direct(res *hx.Result, u *universe, in *directInput, wasActive boo
 			// the modifier changed and reported nothing, and exactly these memberships were already wrong before
 			k = "direct-noop-modifier:stale-stored-membership-kept"
 		}
-		res.Fail(k, in, fmt.Sprintf("after modifiers.Apply (modified=%v): %v", a.modified, errs))
+		fail(k, in, fmt.Sprintf("after modifiers.Apply (modified=%v): %v", a.modified, errs))
 	}
 	if wasActive && c.Status() != flows.ContactStatusActive {
 		if st := staticGroupsOf(u, c); len(st) > 0 {
-			res.Fail(cls+":static-groups-kept-by-non-active-contact"+which, in, fmt.Sprintf("contact became %s but is still in static groups %v", c.Status(), st))
+			fail(cls+":static-groups-kept-by-non-active-contact"+which, in, fmt.Sprintf("contact became %s but is still in static groups %v", c.Status(), st))
 		}
 	}
 	if !groupEventsAccountForChange(a.pre, a.post, a.eventsJS) {
-		res.Fail(cls+":membership-change-not-reported"+which, in, fmt.Sprintf("groups before %v, after %v, events %v", a.pre["groups"], a.post["groups"], a.eventsJS))
+		fail(cls+":membership-change-not-reported"+which, in, fmt.Sprintf("groups before %v, after %v, events %v", a.pre["groups"], a.post["groups"], a.eventsJS))
 	}
 }
 
